@@ -543,6 +543,20 @@ func ruleDeadlineIffDeadline(c *Ctx, rule string) {
 		c.check(rule, "headersFromContext:timeout-only-with-deadline", okD, "the timeout header is appended only under ok of ctx.Deadline(): "+fs.String(), p.ipos(a))
 	})
 	c.floor(rule, "timeout header literal", n, 1)
+	// converse: whenever the caller has a deadline (ok), the header is emitted — an already expired deadline too
+	// (it is conveyed as the minimum value, not dropped, or the handler runs without any deadline)
+	for _, ci := range p.callsTo(hfc, "Context).Deadline", false) {
+		okPath := p.lpath(ci.(*ssa.Call)) + "#1"
+		bad := p.mustPassUnless(ci.(ssa.Instruction), func(i ssa.Instruction) bool {
+			a, ok := i.(*ssa.Alloc)
+			return ok && typeKey(a.Type()) == "pb.KeyValue"
+		}, p.edgeImplies(hfc, atom("false", okPath)))
+		where := ""
+		if bad != nil {
+			where = p.ipos(bad)
+		}
+		c.check(rule, "headersFromContext:deadline⇒timeout-header", bad == nil, "every path on which ctx.Deadline() reported a deadline appends the timeout header (exit reached without it: "+where+")", p.ipos(ci.(ssa.Instruction)))
+	}
 	cfh := p.MustFn("goat.contextFromHeaders")
 	wts := p.callsTo(cfh, "context.WithTimeout", false)
 	for _, wt := range wts {
@@ -758,4 +772,119 @@ func clampSuffix(st timeoutEmitSite) string {
 		return ":clamp"
 	}
 	return ""
+}
+
+// selectArm: the block executed when state k of the select was chosen.
+func selectArm(sel *ssa.Select, k int) *ssa.BasicBlock {
+	idx := extractOf2(sel, 0)
+	if idx == nil {
+		return nil
+	}
+	if refs := idx.Referrers(); refs != nil {
+		for _, r := range *refs {
+			b, ok := r.(*ssa.BinOp)
+			if !ok || b.Op != token.EQL {
+				continue
+			}
+			kc, isC := constInt(b.Y)
+			if !isC || int(kc) != k {
+				continue
+			}
+			if br := b.Referrers(); br != nil {
+				for _, u := range *br {
+					if ifi, ok := u.(*ssa.If); ok {
+						return ifi.Block().Succs[0]
+					}
+				}
+			}
+		}
+	}
+	return nil
+}
+
+func extractOf2(v ssa.Value, k int) *ssa.Extract {
+	if refs := v.Referrers(); refs != nil {
+		for _, r := range *refs {
+			if ex, ok := r.(*ssa.Extract); ok && ex.Index == k {
+				return ex
+			}
+		}
+	}
+	return nil
+}
+
+// ruleDoneArmYieldsCtxErr: on the client side and in the transports, an error returned from the arm of a select
+// that fired on some ctx.Done() is (derived from) that context's Err(): toStatusError recognises exactly
+// context.Canceled / DeadlineExceeded, so handing back anything else there (context.Cause, a fresh error) turns a
+// cancellation into status Unknown. The server side, which reports causes on purpose, is out of scope of this rule.
+func ruleDoneArmYieldsCtxErr(c *Ctx, rule string) {
+	p := c.p
+	e := p.Origins()
+	n := 0
+	errT := types.Universe.Lookup("error").Type()
+	for _, f := range p.Funcs {
+		root := p.fnKey(rootFn(f))
+		if strings.HasPrefix(root, "goat.handler.") || strings.HasPrefix(root, "server.") || strings.HasPrefix(root, "goat.Server.") || strings.HasPrefix(root, "goat.Proxy.") || strings.HasPrefix(root, "goat.proxyClient.") {
+			continue
+		}
+		allInstrs(f, func(i ssa.Instruction) {
+			sel, ok := i.(*ssa.Select)
+			if !ok {
+				return
+			}
+			for k, stt := range sel.States {
+				cl, ok := stt.Chan.(*ssa.Call)
+				if !ok || !cl.Call.IsInvoke() || cl.Call.Method.Name() != "Done" {
+					continue
+				}
+				arm := selectArm(sel, k)
+				if arm == nil {
+					continue
+				}
+				for _, r := range returnsOf(f) {
+					if !arm.Dominates(r.Block()) {
+						continue
+					}
+					vs := retVals(r)
+					if len(vs) == 0 || !types.Identical(vs[len(vs)-1].Type(), errT) {
+						continue
+					}
+					ev := vs[len(vs)-1]
+					// a value read back from a local variable: take the assignment made on this arm
+					if ld, ok := ev.(*ssa.UnOp); ok {
+						if cell, ok := ld.X.(*ssa.Alloc); ok {
+							var last *ssa.Store
+							for _, st := range p.cellStores(cell) {
+								if st.Parent() == f && arm.Dominates(st.Block()) && instrDominates(st, r) {
+									last = st
+								}
+							}
+							if last == nil {
+								continue // the variable was set before the wait: not this arm's verdict
+							}
+							ev = last.Val
+						}
+					}
+					src := ev
+					if ex, ok := src.(*ssa.Extract); ok {
+						src = ex.Tuple
+					}
+					if cl, ok := src.(*ssa.Call); ok && !cl.Call.IsInvoke() && cl.Call.StaticCallee() != nil && p.inScope[cl.Call.StaticCallee()] && !strings.HasSuffix(p.fnKey(cl.Call.StaticCallee()), "toStatusError") {
+						continue // the stream's recorded outcome (readErrorIfDone etc.), decided elsewhere
+					}
+					n++
+					okAll := true
+					why := ""
+					for _, t := range e.Of(ev) {
+						if !t.Has(func(x *Term) bool { return (x.Op == "call" || x.Op == "dyncall") && strings.HasSuffix(x.Name, "Context).Err") }) {
+							okAll = false
+							why = t.short()
+						}
+					}
+					c.check(rule, p.cname(f)+":done-arm-returns-ctx.Err", okAll, "the error returned when the context fired derives from ctx.Err() (toStatusError maps only Canceled / DeadlineExceeded) "+why, p.ipos(r))
+				}
+			}
+		})
+	}
+	c.floor(rule, "error returns on a ctx.Done() arm (client side, transports)", n, 5)
 }
